@@ -3,7 +3,7 @@
 # namespace (the distributed tests bind fixed loopback ports). usage: baseline.sh <repo-dir> <log>
 R=${1:-/repo}; L=${2:-/var/tmp/baseline.log}
 export GOFLAGS=-mod=mod GOPROXY=off GOSUMDB=off GOTOOLCHAIN=local
-unshare -n sh -c "ip link set lo up; cd $R && go test -vet=off -count=1 -timeout 25m -json ./... " > $L 2>&1
+unshare -n sh -c "ip link set lo up; cd $R && go test -p 1 -vet=off -count=1 -timeout 25m -json ./... " > $L 2>&1
 python3 - "$L" <<'PY'
 import json,sys
 res={}
